@@ -1387,12 +1387,16 @@ META = {
             "sub-identifiers), the framing of the hashed parts is injective, and with an injective hash equal identifiers mean "
             "equal content. On every run generated programs (mutual recursion with cycle cuts, rings of 2-4 mutually recursive "
             "predicates with chords, several entries and goal rules over several ring members in every clause order, "
-            "closures, negation, (in)equalities, tests in front of the recursive atom of a rule, equalities that bind fresh "
+            "closures, negation, (in)equalities, tests in front of the recursive atom of a rule, goal rules with 3-8 positive body "
+            "atoms over fan-out relations explained with MaxProofs 2/3/5 (alternatives that differ in the last or a middle "
+            "premise only), equalities that bind fresh "
             "variables, initial facts of derived predicates, let-transforms in recorded mode) are evaluated by the real engine with and without a MemoryRecorder; for every "
             "stored fact the proofs of provenance.Explain and BuildFromRecording (several MaxProofs / MaxDepth) are judged by "
             "check_proof inside Coq: a rejected proof, a missing complete proof, identifiers that are not a function of proof "
             "content, or a store changed by the recorder are violations; a node whose rule is not (textually) one of the program's "
-            "rules has no rule for check_proof and is rejected. Thorough adds exhaustive blocks: a 2-rule schema, every clause "
+            "rules has no rule for check_proof and is rejected. Every returned alternative is judged on its own; an additional oracle "
+            "on Go's output (alternatives of one rule with equal premises agree on the variables of positive body atoms) is backed "
+            "by Prov/SeededProofs.v alternatives_bindings_agree (accepted nodes always do). Thorough adds exhaustive blocks: a 2-rule schema, every clause "
             "order of ring programs with 2-4 predicates, every 3-predicate ring structure (up to renaming), every recursive rule "
             "with a test between the binding atom and the recursive atom.",
     "note": "Trusted: Coq kernel + vm_compute; the Go-proof-to-tree conversion in harness/c15 and the hand-written Datalog model "
